@@ -20,6 +20,7 @@ import traceback
 from . import load as loader
 
 VERIF = loader.VERIF
+OUT = os.environ.get('VERIF_OUT') or VERIF   # scratch runs (mutant self-test) write elsewhere
 QUICK_TIMEOUT_MS = 60_000
 THOROUGH_TIMEOUT_MS = 300_000
 
@@ -93,10 +94,57 @@ def _lower_args(reg, c, raw):
     return args, None
 
 
+def run_trace(reg, obj0, steps):
+    """Drive obj0 through `steps` natively, checking each call against its own contract.
+    Returns (index of the first failing step or None, failures, info)."""
+    from . import native
+    for i, (q, kw) in enumerate(steps):
+        fails, info = native.native_check(reg.fns[q], reg, dict(self=obj0, **kw))
+        if fails:
+            return i, fails, info
+        if fails is None:
+            return -1, None, info
+    return None, [], {}
+
+
+def replay_via_trace(reg, c, cc, raw, rec):
+    """Counter-model of a method obligation: rebuild the receiver through the public API, checking
+    every step; then the offending call itself."""
+    from . import native
+    from .speclib import same
+    model_self = native.lower(raw['self'])
+    other = {k: native.lower(v) for k, v in raw.items() if k != 'self'}
+    obj0, steps = cc.trace(model_self)
+    steps = list(steps) + [(c.qualname, other)]
+    start = copy.deepcopy(obj0)
+    k, fails, info = run_trace(reg, obj0, steps)
+    if k is not None and k >= 0:
+        rec.update(verdict='reproduced', native_failures=fails, info=info,
+                   inputs=dict(start=native.describe_native(start),
+                               calls=[(q.split('.')[-1], native.describe_native(kw))
+                                      for q, kw in steps[:k + 1]]),
+                   trace_pickle_b64=base64.b64encode(pickle.dumps((start, steps[:k + 1]))).decode())
+        return True
+    rec['why_not'] = ('the model state is not reachable: replaying the model history through the '
+                      'public API satisfies every contract on the way') if k is None else \
+        f'trace skipped: {info}'
+    return False
+
+
 def replay_function(reg, c, oname, raw, search=True):
     from . import native
     rec = dict(verdict='no-failing-input-found', native_failures=[], info={})
-    if raw is not None:
+    cc = reg.class_contract_of(c)
+    if raw is not None and cc is not None and cc.trace is not None and not c.is_init \
+            and 'self' in raw:
+        try:
+            if replay_via_trace(reg, c, cc, raw, rec):
+                return rec
+        except native.CannotLower as e:
+            rec['why_not'] = f'model is not a well-typed input: {e}'
+        except Exception:
+            rec['why_not'] = 'trace replay error: ' + traceback.format_exc()[-600:]
+    elif raw is not None:
         try:
             args, why = _lower_args(reg, c, raw)
         except native.CannotLower as e:
@@ -332,7 +380,7 @@ def finish(pid, tier, seed, reg, results, fuzz, cvc5_res, extra, t_start):
     samples = []
     functions = []
     lines = []
-    replay_dir = os.path.join(VERIF, 'replays', pid)
+    replay_dir = os.path.join(OUT, 'replays', pid)
     for u in sorted(results):
         d = results[u]
         solver_secs += d.get('solver_secs', 0)
@@ -472,8 +520,8 @@ def finish(pid, tier, seed, reg, results, fuzz, cvc5_res, extra, t_start):
         wall_s=round(wall, 2),
         violations=len(vio_out),
     )
-    os.makedirs(os.path.join(VERIF, 'evidence'), exist_ok=True)
-    json.dump(evidence, open(os.path.join(VERIF, 'evidence', f'{pid}.json'), 'w'), indent=1,
+    os.makedirs(os.path.join(OUT, 'evidence'), exist_ok=True)
+    json.dump(evidence, open(os.path.join(OUT, 'evidence', f'{pid}.json'), 'w'), indent=1,
               default=str)
     for ln in lines:
         print(ln)
@@ -520,6 +568,14 @@ def replay_file(path):
     from . import native
     rp = rec.get('replay', {})
     pk = rp.get('args_pickle_b64')
+    if rp.get('trace_pickle_b64'):
+        start, steps = pickle.loads(base64.b64decode(rp['trace_pickle_b64']))
+        k, fails, info = run_trace(reg, start, steps)
+        if k is not None and k >= 0:
+            print('REPRODUCED', json.dumps(fails), json.dumps(info, default=str)[:500])
+            return 0
+        print('NOT-REPRODUCED', json.dumps(info, default=str)[:500])
+        return 1
     if not pk:
         print('NOT-REPRODUCED (the replay file carries no concrete input: '
               'the violation was reported as no-failing-input-found)')
